@@ -118,6 +118,32 @@ Theorem C02_roundtrip_examples : forallb (fun fl => roundtrip_okb ex_fmt17 ex_st
 Proof. exact roundtrip_examples. Qed.
 Print Assumptions C02_roundtrip_examples.
 
+(* ---- 4. "every tree built through the API": trees reached through histories of deep copies, in-place
+   setters (set_double / set_int64 / set_uint64 / set_boolean / set_string), child replacement and deletion *)
+Theorem C02_history_valid : forall fmt17, fmt17_ok fmt17 -> forall fl hs v,
+  color fl = false -> tree_ok v -> Forall hop_arg_ok hs ->
+  exists s, stx_ok s = true /\ render s = serialize fmt17 fl 0 (hist_apply hs v) /\ denotes fmt17 (value s) (hist_apply hs v).
+Proof. exact history_valid. Qed.
+Print Assumptions C02_history_valid.
+
+Theorem C02_history_flags : forall fmt17, fmt17_ok fmt17 -> forall fl hs v,
+  tree_ok v -> Forall hop_arg_ok hs ->
+  significant (serialize fmt17 fl 0 (hist_apply hs v)) = significant (serialize fmt17 flags_plain 0 (hist_apply hs v)).
+Proof. exact history_flags. Qed.
+Print Assumptions C02_history_flags.
+
+(* after json_object_set_double a node prints the %.17g text of the new value, whatever text it retained
+   (parser, json_object_new_double_s, or a deep copy of either); a deep copy prints what its source prints *)
+Theorem C02_set_double_prints_new_value : forall fmt17 fl level b t bits,
+  serialize fmt17 fl level (set_double_node bits (JDouble b t)) = double_text fmt17 fl bits.
+Proof. exact set_double_prints_new_value. Qed.
+Print Assumptions C02_set_double_prints_new_value.
+
+Theorem C02_copy_prints_the_same : forall fmt17 fl level v,
+  serialize fmt17 fl level (hop_apply HCopy v) = serialize fmt17 fl level v.
+Proof. exact copy_prints_the_same. Qed.
+Print Assumptions C02_copy_prints_the_same.
+
 (* non-vacuity of the guard and of the oracle hypothesis: the example oracle satisfies fmt17_ok on the
    example's doubles, and the example tree satisfies node_ok *)
 Theorem C02_nonvacuous : fmt17_ok w_fmt17 /\ jv_Forall node_ok (JArr [JDouble w_bits None; JStr [0;47;255]; JObj [([97], JNull)]]).
